@@ -1,17 +1,25 @@
 (* glue for the correspondence files Cases_C17.v / Cases_C17bf.v written by harness/c17 *)
-From Coq Require Import ZArith List Bool.
+From Coq Require Import ZArith List Bool Uint63.
+From Coq Require Export Floats.
 From FxV Require Import model.M_Perm.
 Import ListNotations.
 Open Scope Z_scope.
 
 (* real BridgeValidators.PowerDiff on two generated oracle sets:
    obs_sum = round(PowerDiff * MaxUint32)   (the exact integer the float accumulation represents)
-   obs8    = the digits of fmt.Sprintf("%.8f", PowerDiff) read as an integer (value * 10^8)          *)
-Record pd_case := mk_pd_case { pd_b : list member; pd_c : list member; pd_sum : Z; pd_fmt8 : Z }.
+   obs8    = the digits of fmt.Sprintf("%.8f", PowerDiff) read as an integer (value * 10^8)
+   obs     = the returned float64 itself (hex float literal)                                              *)
+Record pd_case := mk_pd_case { pd_b : list member; pd_c : list member; pd_sum : Z; pd_fmt8 : Z; pd_obs : float }.
+
+(* the value the code computes when the accumulation is exact: one correctly rounded binary64 division
+   of the integer sum by MaxUint32 (Coq's primitive floats are IEEE-754 binary64; used only here, in
+   the evaluation of harness cases, never in a theorem) *)
+Definition pd_model_float (s : Z) : float :=
+  PrimFloat.div (PrimFloat.of_uint63 (Uint63.of_Z s)) (PrimFloat.of_uint63 (Uint63.of_Z max_uint32)).
 
 Definition pd_mismatch (c : pd_case) : bool :=
   let s := power_diff_sum (pd_b c) (pd_c c) in
-  negb ((s =? pd_sum c) &&
+  negb ((s =? pd_sum c) && PrimFloat.eqb (pd_model_float s) (pd_obs c) &&
         (* the printed value is sum/(2^32-1) to 8 decimals, up to one unit in the last place *)
         (Z.abs (pd_fmt8 c * max_uint32 - s * 10 ^ 8) <=? max_uint32 + max_uint32 / 2)).
 
